@@ -9,6 +9,7 @@ package c10
 import (
 	"context"
 	"encoding/json"
+	"errors"
 	"fmt"
 	"os"
 	"time"
@@ -46,6 +47,9 @@ type scenario struct {
 	PriorDeadline bool `json:"caller_deadline_before_newconn,omitempty"`
 	// DeadlineErr: the transport's SetDeadline takes effect and then reports an error
 	DeadlineErr bool `json:"set_deadline_reports_error,omitempty"`
+	// SlowDeadline: the transport's SetDeadline takes one second (virtual) before it takes effect: NewConn has to wait for its
+	// watcher however long that call takes - returning earlier would let the deadline land on a connection it has handed over
+	SlowDeadline bool `json:"set_deadline_takes_1s,omitempty"`
 }
 
 const priorDeadline = 100 * unit
@@ -112,6 +116,9 @@ func run(sc scenario, choose vs.Chooser, traceOn bool) (*observation, *vs.Sched,
 	t := vnet.New()
 	t.Blocked = sc.BlockedWrites
 	t.DeadlineErr = sc.DeadlineErr
+	if sc.SlowDeadline {
+		t.DeadlineDelay = unit
+	}
 	s := vs.RunOpt(choose, 5000, traceOn, func() {
 		var ctx context.Context
 		var cancel context.CancelFunc
@@ -260,13 +267,21 @@ func monitor(sc scenario, ob *observation, s *vs.Sched, t *vnet.Conn) (key, what
 	case "deadline5-cancelled-at-1":
 		ctxEnds, ctxEndAt = true, 1*unit
 	}
+	slack := time.Duration(0)
+	if sc.SlowDeadline {
+		slack = unit // what the watcher does to stop NewConn takes that long on this transport
+	}
 	if sc.Hello == "bad-record" || sc.Hello == "rejected-hello" {
 		// the refusal itself does not depend on the context; but the alert write may block (client not reading), and then the
 		// context is what bounds NewConn
 		switch {
 		case ob.newConnErr == nil:
 			return "newconn-accepts-bad-record", "NewConn succeeded on a first record it must refuse (" + sc.Hello + ")"
-		case ctxEnds && ob.returnedAt > ctxEndAt:
+		case sc.Hello == "rejected-hello" && !errors.Is(ob.newConnErr, ech.ErrIllegalParameter) && !(ctxEnds && ctxEndAt == 0):
+			// the record was there at t=0 and the context ended later (if at all): the hello was read and refused for what it is,
+			// whatever happens to the context while the alert is being written
+			return "refused-hello-wrong-error-class", fmt.Sprintf("NewConn refused the hello (ECH type inner, illegal_parameter) but returned %v", ob.newConnErr)
+		case ctxEnds && ob.returnedAt > ctxEndAt+slack:
 			return "newconn-late", fmt.Sprintf("the context ended at %v but NewConn (blocked writing its alert to a client that does not read) returned at %v", ctxEndAt, ob.returnedAt)
 		case !sc.BlockedWrites && ob.returnedAt > 0:
 			return "newconn-late", fmt.Sprintf("NewConn took until %v to refuse a record that was available at 0", ob.returnedAt)
@@ -281,7 +296,7 @@ func monitor(sc scenario, ob *observation, s *vs.Sched, t *vnet.Conn) (key, what
 		if !helloComplete && !ctxEnds {
 			return "", "" // cannot happen: it would block forever (reported as never-returns)
 		}
-		if ctxEnds && ob.returnedAt > ctxEndAt {
+		if ctxEnds && ob.returnedAt > ctxEndAt+slack {
 			return "newconn-late", fmt.Sprintf("the context ended at %v but NewConn returned at %v", ctxEndAt, ob.returnedAt)
 		}
 		return "", ""
@@ -383,6 +398,15 @@ func scenarios() []scenario {
 	for _, h := range []string{"buffered", "late", "two-records"} {
 		for _, c := range []string{"t0", "t1", "before-call", "deadline2"} {
 			out = append(out, scenario{Hello: h, Cancel: c, Keys: true, BlockedWrites: true})
+		}
+	}
+	// a transport whose SetDeadline takes a second: the watcher's call may be under way when the hello has been read
+	for _, h := range []string{"buffered", "late", "never"} {
+		for _, c := range []string{"t0", "t1", "before-call", "after-return", "never"} {
+			if h == "never" && (c == "after-return" || c == "never") {
+				continue
+			}
+			out = append(out, scenario{Hello: h, Cancel: c, Keys: true, SlowDeadline: true})
 		}
 	}
 	return out
